@@ -2265,3 +2265,161 @@ Definition run_api_te_case (x : list (N * list api_te_sub)) : val :=
       else VL [VI 1; v_bytes_c b;
                if te_lists_typed l then VList (fun t => VL [VN (fst t); VList v_te_sub (snd t)]) (te_to_api l) else VL [VI 99]]
   end.
+
+(* ================================================================== *)
+(* BGP-MUP NLRI (packet/src/mup.rs; convert.rs mup_nlri_to_api, the four Mup arms of      *)
+(* net_from_api, parse_prefix)                                                              *)
+Inductive mup : Type :=
+| MupIsd (d : rd) (a : ipaddr) (len : N)
+| MupDsd (d : rd) (a : ipaddr)
+| MupT1 (d : rd) (a : ipaddr) (len teid qfi : N) (ep : ipaddr) (src : option ipaddr)
+| MupT2 (d : rd) (ealen : N) (ep : ipaddr) (teid : N).
+
+Inductive api_mup : Type :=
+| AMupIsd (d : api_rd) (prefix : list N)
+| AMupDsd (d : api_rd) (addr : list N)
+| AMupT1 (d : api_rd) (prefix : list N) (teid qfi ealen : N) (ep : list N) (salen : N) (src : list N)
+| AMupT2 (d : api_rd) (ealen : N) (ep : list N) (teid : N).
+
+(* u8::from_str: an optional '+', at least one decimal digit, value at most 255 *)
+Fixpoint dec_digits (l : list N) (acc : N) : option N :=
+  match l with
+  | [] => Some acc
+  | c :: r => if is_digit c then dec_digits r (acc * 10 + (c - 48)) else None
+  end.
+Definition u8_of_string (s : list N) : option N :=
+  let d := match s with 43 :: r => r | _ => s end in
+  match d with
+  | [] => None
+  | _ => match dec_digits d 0 with Some v => if v <=? 255 then Some v else None | None => None end
+  end.
+
+(* str::rsplit_once('/') on the reversed string: (text before the last '/', text after it) *)
+Fixpoint take_until (sep : N) (l acc : list N) : option (list N * list N) :=
+  match l with
+  | [] => None
+  | c :: r => if c =? sep then Some (acc, r) else take_until sep r (c :: acc)
+  end.
+Definition rsplit_slash (s : list N) : option (list N * list N) :=
+  match take_until 47 (rev s) [] with
+  | Some (suffix, rev_prefix) => Some (rev rev_prefix, suffix)
+  | None => None
+  end.
+
+Definition ip_is_v4 (i : ipaddr) : bool := match i with IP4 _ => true | IP6 _ => false end.
+Definition ip_octets (i : ipaddr) : list N := match i with IP4 a => be32 a | IP6 a => to_bytes 16 a end.
+Definition ip_value (i : ipaddr) : N := match i with IP4 a | IP6 a => a end.
+
+Section Mup.
+  Variable v6p : N -> list N.
+  Variable v6r : list N -> option N.
+
+  (* parse_prefix: "<address>/<length>", the length within the address, no address octets beyond it *)
+  Definition parse_prefix (s : list N) : option (ipaddr * N) :=
+    match rsplit_slash s with
+    | None => None
+    | Some (a, l) =>
+        match ip_of_string v6r a, u8_of_string l with
+        | Some i, Some len =>
+            if ip_width i <? len then None
+            else if octets_ok (if ip_is_v4 i then 4 else 16) (ip_value i) len then Some (i, len) else None
+        | _, _ => None
+        end
+    end.
+
+  Definition mup_from_api (x : api_mup) : option mup :=
+    match x with
+    | AMupIsd d p =>
+        match rd_from_api d, parse_prefix p with
+        | Some d', Some (a, len) => Some (MupIsd d' a len)
+        | _, _ => None
+        end
+    | AMupDsd d s =>
+        match rd_from_api d, ip_of_string v6r s with
+        | Some d', Some a => Some (MupDsd d' a)
+        | _, _ => None
+        end
+    | AMupT1 d p teid qfi _ ep salen src =>
+        match rd_from_api d, parse_prefix p, ip_of_string v6r ep with
+        | Some d', Some (a, len), Some e =>
+            let source := if (salen =? 0) || Nat.eqb (length src) 0 then Some None
+                          else match ip_of_string v6r src with Some s => Some (Some s) | None => None end in
+            match source with
+            | Some s => if 255 <? qfi then None else Some (MupT1 d' a len teid qfi e s)
+            | None => None
+            end
+        | _, _, _ => None
+        end
+    | AMupT2 d ealen ep teid =>
+        match rd_from_api d, ip_of_string v6r ep with
+        | Some d', Some e =>
+            let w := ip_width e in
+            if (ealen <? w) || (w + 32 <? ealen) then None
+            else let k := (ealen - w + 7) / 8 in
+                 if (k <? 4) && negb ((teid * 256 ^ k) mod 4294967296 =? 0) then None
+                 else Some (MupT2 d' ealen e teid)
+        | _, _ => None
+        end
+    end.
+
+  Definition prefix_text (a : ipaddr) (len : N) : list N := ip_to_string v6p a ++ 47 :: dec_octet len.
+
+  Definition mup_to_api (n : mup) : api_mup :=
+    match n with
+    | MupIsd d a len => AMupIsd (rd_to_api d) (prefix_text a len)
+    | MupDsd d a => AMupDsd (rd_to_api d) (ip_to_string v6p a)
+    | MupT1 d a len teid qfi ep src =>
+        AMupT1 (rd_to_api d) (prefix_text a len) teid qfi (ip_width ep) (ip_to_string v6p ep)
+               (match src with Some s => ip_width s | None => 0 end)
+               (match src with Some s => ip_to_string v6p s | None => [] end)
+    | MupT2 d ealen ep teid => AMupT2 (rd_to_api d) ealen (ip_to_string v6p ep) teid
+    end.
+End Mup.
+
+(* nlri_matches_family, MUP arm: every address of the route is of the family's IP version *)
+Definition mup_family_ok (n : mup) (family : N) : bool :=
+  let v4 := family =? 65621 in
+  ((family =? 65621) || (family =? 131157)) &&
+  match n with
+  | MupIsd _ a _ => Bool.eqb (ip_is_v4 a) v4
+  | MupDsd _ a => Bool.eqb (ip_is_v4 a) v4
+  | MupT1 _ a _ _ _ ep src =>
+      Bool.eqb (ip_is_v4 a) v4 && Bool.eqb (ip_is_v4 ep) v4 && match src with Some s => Bool.eqb (ip_is_v4 s) v4 | None => true end
+  | MupT2 _ _ ep _ => Bool.eqb (ip_is_v4 ep) v4
+  end.
+
+(* MupNlri::encode: [architecture 1][route type: 2][length: 1][body] *)
+Definition prefix_octets (a : ipaddr) (len : N) : list N := firstn (N.to_nat ((len + 7) / 8)) (ip_octets a).
+Definition mup_body (n : mup) : list N :=
+  match n with
+  | MupIsd d a len => rd_bytes d ++ len :: prefix_octets a len
+  | MupDsd d a => rd_bytes d ++ ip_octets a
+  | MupT1 d a len teid qfi ep src =>
+      rd_bytes d ++ len :: prefix_octets a len ++ be32 teid ++ qfi :: ip_width ep :: ip_octets ep
+      ++ match src with Some s => ip_width s :: ip_octets s | None => [0] end
+  | MupT2 d ealen ep teid =>
+      rd_bytes d ++ ealen :: ip_octets ep ++ firstn (N.to_nat ((ealen - ip_width ep + 7) / 8)) (be32 teid)
+  end.
+Definition mup_route_type (n : mup) : N :=
+  match n with MupIsd _ _ _ => 1 | MupDsd _ _ => 2 | MupT1 _ _ _ _ _ _ _ => 3 | MupT2 _ _ _ _ => 4 end.
+Definition mup_encode (n : mup) : list N :=
+  1 :: be16 (mup_route_type n) ++ (N.of_nat (length (mup_body n)) mod 256) :: mup_body n.
+
+Definition v_api_mup (x : api_mup) : val :=
+  match x with
+  | AMupIsd d p => VL [VI 14; v_api_rd0 d; VNs p]
+  | AMupDsd d a => VL [VI 15; v_api_rd0 d; VNs a]
+  | AMupT1 d p teid qfi el ep sl src => VL [VI 16; v_api_rd0 d; VNs p; VN teid; VN qfi; VN el; VNs ep; VN sl; VNs src]
+  | AMupT2 d el ep teid => VL [VI 17; v_api_rd0 d; VN el; VNs ep; VN teid]
+  end.
+
+(* kind 8, MUP: [accepted; wire octets; decodes back; relisted; API form listed] *)
+Definition run_api_mup_case (family : N) (x : api_mup) : val :=
+  match mup_from_api v6_parse x with
+  | None => VL [VI 0]
+  | Some n =>
+      if negb (mup_family_ok n family) then VL [VI 0] else
+      let y := mup_to_api v6_print n in
+      VL [VI 1; VNs (mup_encode n); VI 1;
+          VI (match mup_from_api v6_parse y with Some n' => 0 | None => 2 end); v_api_mup y]
+  end.
